@@ -408,7 +408,14 @@ V.append({'id': 'c08-lock-cycle', 'prop': 'C08', 'kind': 'firing', 'tier': 'thor
 silent('c01-range-test-negated-form', 'C01', DTY,
        "        if self.min <= value <= self.max:\n            return value\n        raise RangeError(f'{value!r} must be between {self.min} and {self.max}')",
        "        if not (self.min <= value <= self.max):\n            raise RangeError(f'{value!r} must be between {self.min} and {self.max}')\n        return value")
+silent('c01-int-range-test-rejecting-form', 'C01', DTY,       # the converted integer is never a NaN: either form of the test is exact
+       "        if self.min <= value <= self.max:\n            return value\n        raise RangeError(f'{value!r} must be between {self.min} and {self.max}')",
+       "        if value < self.min or value > self.max:\n            raise RangeError(f'{value!r} must be between {self.min} and {self.max}')\n        return value")
 firing('c01-range-test-rejecting-form', 'C01', DTY,
+       "        if self.min - prec <= value <= self.max + prec:",
+       "        if not (value < self.min - prec or value > self.max + prec):",
+       'value returned only on the accepting branch')
+_unused = ('c01-range-test-rejecting-form-old', 'C01', DTY,
        "        if self.min <= value <= self.max:\n            return value\n        raise RangeError(f'{value!r} must be between {self.min} and {self.max}')",
        "        if value < self.min or value > self.max:\n            raise RangeError(f'{value!r} must be between {self.min} and {self.max}')\n        return value",
        'value returned only on the accepting branch')
